@@ -190,17 +190,20 @@ def oracle_scenario(log, esc):
     queries = [e for e in log if e[0] == 'query']
     sends = [e for e in log if e[0] == 'send']
     mc = []
-    for _, ts, dest, data in sends:
+    mc_send_index = []
+    unseen = set()      # indices (into sends) of own multicasts whose loop-back copy the duplicate guard dropped: the host did not see them
+    for sidx, (_, ts, dest, data) in enumerate(sends):
         m, recs = records_in(data)
         if dest and dest[0] == '224.0.0.251':
             idents = [r[:4] for r in recs]
             if len(set(idents)) != len(idents):
                 return f"multicast at +{ts} lists a record twice"
-            mc.append((ts, set(idents), recs))
+            mc.append((ts, set(idents), recs, {r[:4] for r in recs[:m.num_answers]}))
+            mc_send_index.append(sidx)
     px, py = ('DNSPointer', T, 12, XN.lower()), ('DNSPointer', T, 12, YN)
 
     def sightings(ident, before):
-        return [ts for ts, ids, _ in mc if ident in ids and ts <= before]
+        return [ts for k, (ts, ids, _, _) in enumerate(mc) if ident in ids and ts <= before and mc_send_index[k] not in unseen]
     # The listener's duplicate guard (C16) remembers the last datagram it HANDLED on the socket - queries and, with multicast loop-back,
     # the instance's own transmissions coming back - and drops a byte-identical datagram arriving less than a second after it (none of
     # these has a QU question). A dropped copy does not extend the window. Replay that memory over everything the socket received:
@@ -210,8 +213,10 @@ def oracle_scenario(log, esc):
     recv.sort(key=lambda x: (x[0], x[1], x[2]))
     g_data, g_t, g_src = None, None, None
     verdict = {}
-    for (t, _, _, data, src, qi) in recv:
+    for (t, _, sj, data, src, qi) in recv:
         dup = g_data == data and t - 1000 < g_t
+        if qi is None and dup:
+            unseen.add(sj)
         if qi is not None:
             # from the same source: a link-layer duplicate, rightly ignored; from another source it is somebody else's query, which is
             # then covered by the answer still pending for the first copy (the windows below are checked for it all the same)
@@ -232,7 +237,7 @@ def oracle_scenario(log, esc):
         for ident in want:
             last = [s for s in sightings(ident, t) if s < t or (s == t and False)]
             protected = bool(last) and t - max(last) < 1000
-            after = [ts for ts, ids, _ in mc if ident in ids and ts >= t]
+            after = [ts for ts, ids, _, _ in mc if ident in ids and ts >= t]
             if kind in ('srv', 'a') and not in_train:
                 if protected:
                     lo, hi = max(last) + 1000, t + 1200
@@ -246,14 +251,33 @@ def oracle_scenario(log, esc):
             if not hits:
                 tag = ' [identical to the previous datagram from another source]' if other_source_dup else ''
                 return f"query {kind} at +{t}: no multicast of {ident} by +{hi} (next at {after[:1]}){tag}"
-            # lower bound only when no other pending request for the record could have caused the transmission
-            others = [q for j, q in enumerate(queries) if j != i and q[1] <= t and t - q[1] <= 1200 + 500]
-            if not others and min(hits) < lo:
-                return f"query {kind} at +{t}: {ident} multicast at +{min(hits)}, earlier than +{lo}"
+            # lower bound: a transmission of the record as an ANSWER (additionals are not rate-limited) before +lo must be owed to another
+            # query - one that was handled, asks for this record, and whose own window (at once / 20..500 ms, or from one second after the
+            # sighting that protected it until 1.2 s after its arrival) contains the instant.
+            # Truncated trains are treated leniently (any time after their hold).
+            early = [s_ for s_, _, _, ans in mc if ident in ans and t <= s_ < lo]
+            for s_ in early[:1]:
+                def owes(j, q):
+                    tj, kj = q[1], q[2]
+                    if j == i or tj > s_ or verdict[j][0]:
+                        return False
+                    if kj == 'tc' or any(q2[2] == 'tc' and q2[3] == q[3] and 0 <= tj - q2[1] <= tc_hold(q2) for q2 in queries[:j]):
+                        return True
+                    asks = {'ptr': (px, py), 'ptr-known': (py,), 'multi': (px, py), 'srv': (('DNSService', XN.lower(), 33, HN.lower()),),
+                            'a': (('DNSAddress', HN.lower(), 1, ''),)}[kj]
+                    if ident not in asks:
+                        return False
+                    # (the two queues are not de-duplicated against each other, so "already served" is no argument: only the window counts)
+                    seen = [s2 for s2 in sightings(ident, tj) if s2 < tj]
+                    if seen and tj - max(seen) < 1000:
+                        return max(seen) + 1000 <= s_ <= tj + 1200
+                    return s_ == tj if kj in ('srv', 'a') else tj + 20 <= s_ <= tj + 500
+                if not any(owes(j, q) for j, q in enumerate(queries)):
+                    return f"query {kind} at +{t}: {ident} multicast at +{s_}, earlier than +{lo}"
     # TC: nothing answered on behalf of a truncated query before the 400 ms hold is over (when it is the only traffic)
     if len(queries) == 1 and queries[0][2] == 'tc':
         t = queries[0][1]
-        first = [ts for ts, ids, _ in mc if ts >= t]
+        first = [ts for ts, ids, _, _ in mc if ts >= t]
         if not first:
             return "truncated query never answered"
         if not (t + 400 + 20 <= first[0] <= t + 500 + 120):
@@ -296,6 +320,10 @@ def run(ctx):
     # corpus first: the recorded finding C12-dupguard (the third copy, from another host, is dropped while the answer to the second is held
     # by the one-second protection)
     corpus = [[(0, 'ptr', '10.0.0.8', 57, 500, 0), (999, 'ptr', '10.0.0.7', 57, 400, 0), (1199, 'ptr', '10.0.0.8', 20, 400, 0)]]
+    # the one-second protection meets the "answered at once" types: a single SRV / A question less than a second after the record was seen
+    # (as the answer to the same question from another host, or as an additional of a pointer answer)
+    for first, gap, second in (('srv', 200, 'srv'), ('a', 500, 'a'), ('ptr', 400, 'srv'), ('ptr', 999, 'a'), ('srv', 999, 'srv'), ('ptr', 1200, 'a')):
+        corpus.append([(0, first, '10.0.0.8', 57, 450, 0), (gap, second, '10.0.0.7', 57, 450, 0)])
     for k in range(n_sc + len(corpus)):
         evs = corpus[k] if k < len(corpus) else gen_scenario(rng)
         log, esc = run_scenario(evs)
